@@ -217,3 +217,37 @@ func vh_C18_selftest() {
 	want := vxSHA1(nil)
 	vxAssert(sum[0] == want[0], "selftest: deliberately false (HMAC of the empty message is not SHA1 of it)")
 }
+
+// No shared mutable state: everything acquire/write/sum/reset/put touches belongs to the pooled object
+// (or is read-only); a write to a package-level variable with no lock held would be raced on by
+// concurrent users of the pool ("however many goroutines use the pool at once").
+func vh_C18_no_shared_state() {
+	alg := vxChoose(2)
+	kn := vxLen(70)
+	key := vxBytes(kn, kn)
+	if kn > vxBlock {
+		vxReach("long-key")
+	} else {
+		vxReach("short-key")
+	}
+	text := vxBytes(3, 3)
+	vxSharedWatch(true)
+	var h hash.Hash
+	if alg == 0 {
+		h = AcquireSHA1(key)
+	} else {
+		h = AcquireSHA256(key)
+	}
+	h.Write(text) //nolint:errcheck
+	_ = h.Sum(nil)
+	h.Reset()
+	h.Write(text) //nolint:errcheck
+	_ = h.Sum(nil)
+	if alg == 0 {
+		PutSHA1(h)
+	} else {
+		PutSHA256(h)
+	}
+	vxSharedWatch(false)
+	vxReach("done")
+}
